@@ -14,3 +14,7 @@ claim("C10", "exploration",
       "Runs the driver's replica-map computation and token-aware lookup on generated rings (vnodes, uneven racks, unknown DCs, rf 0..6, three partitioners, several policy initialisation orders) and compares with an independent implementation of Cassandra's SimpleStrategy/NetworkTopologyStrategy; a small parameter box (<=4 nodes x <=2 tokens x <=2 DCs x <=2 racks x rf<=3, all DC/rack assignments) is enumerated completely.",
       "Trusted base: cqlref placement (2.x and 3.x NTS formulations cross-checked on every case; a disagreement is reported as inconclusive). NTS is compared as a set plus first replica, SimpleStrategy as an exact sequence.",
       "runtime oracle: differential testing of placement against a reference model, exhaustive over a small box", "4/C10")
+claim("C11", "exploration",
+      "Drives the real selection policies (round-robin, DC-aware, rack-aware, token-aware over each, with/without shuffling and non-local replica fallback) over generated cluster states and checks every returned host sequence: finite, up hosts only, no repeats, complete, replica prefix per tier, tiers non-decreasing, rotation of the starting host; plus picks racing host add/remove/up/down under the race detector (safety only) and a porcupine linearizability check of the copy-on-write host list.",
+      "Trusted base: the tier definitions stated in the evidence; the replica list is the driver's own (C10 decides its correctness); porcupine v1.3.0. Interleavings are whatever stress produces; a checker timeout is inconclusive.",
+      "runtime monitor on policy output sequences + Go race detector + porcupine linearizability check of recorded histories", "4/C11")
